@@ -11,7 +11,7 @@ PROP = {'rule': 'rapid-generated cases. cacheHistory: state machine (~40 steps) 
          '0-3 pods assigned through AddAssignedPod, preemptible amounts, request aimed at the exact boundary); non-trivial = some counted '
          'dimension requested within 1 unit of the remaining room. nominate: 1-3 reservations on 2 nodes, 2-5 scheduling cycles '
          '(BeforePreFilter, PreFilter, Filter, optional PreScore, Reserve) with reservation-update / bind / Unreserve / pod-delete / '
-         'reservation-succeeded events in between; non-trivial = a cycle whose pod has reservation affinity and exactly one matched '
+         'reservation-succeeded events in between, Unreserve alternately before and after the plugin\'s own PreBind, and a ledger check (assigned set and allocated == sum of the model pods) after every cycle and event; non-trivial = a cycle whose pod has reservation affinity and exactly one matched '
          'reservation on the chosen node. multiProfile: 1-3 scheduler profiles, each with its own real Reservation plugin and cache, '
          'all fed the same generated reservation add / bind / update / terminate / rollback / delete events (and a few assigned pods) through '
          'each plugin\'s own handler and through the real global handler captured from eventhandlers.AddScheduleEventHandler, the global '
